@@ -60,7 +60,10 @@ def immTok (s : Instr) (imme : Str) : R Instr :=
     let opt :=
       if hex && (s.opt &&& c_SMART_MOV_IMM != 0) && len < c_STR_HEX_64
       then s.opt ||| c_NASM_MOV_IMM else s.opt
-    .ok { s with imm := true, opt := opt, cons := strtoul tok (if hex then 16 else 10) }
+    let (v, rest, seen) := strtoulEnd tok (if hex then 16 else 10)
+    -- the whole token has to be a number (`end == imme || *end != '\0'` fails the line)
+    if !seen || !rest.isEmpty then .error .fail
+    else .ok { s with imm := true, opt := opt, cons := v }
 
 /-- overwrite the first `n` characters behind the leading blanks with blanks -/
 def clearAfterBlanks (tok : Str) (n : Nat) : Str :=
